@@ -50,6 +50,20 @@ def ref_stop(script, batch_sizes, precision, ops, start_rows=0):
 class C14Sim(calsim.CalSim):
     """after every calibrate() with a folder, restore it and remember the restored state"""
 
+    def do_op(self, op):
+        k = len(self.op_results)
+        if k in self.scn.get("restore_before", ()) and self.folder is not None and not getattr(self, "_restoring", False):
+            import os
+            if os.path.exists(os.path.join(self.folder, "calibration_params.json")):
+                self._restoring = True
+                try:
+                    r = super().do_op(["restore"])      # crash + restore: the stop rule must survive it
+                finally:
+                    self._restoring = False
+                if r.get("fatal"):
+                    return {"op": op, "exc": r["exc"], "ret": None, "snap": None, "fatal": True}
+        return super().do_op(op)
+
     def do_calibrate(self, n):
         r = super().do_calibrate(n)
         r["restored"] = None
@@ -102,10 +116,14 @@ class C14(Check):
                "convergence_precision": prec, "script": script, "script_per": E}
         env = {"verbose": rng.random() < 0.5, "folder": rng.random() < 0.5}
         ops = [["calibrate", n] for n in calls]
-        if len(ops) > 1 and rng.random() < 0.15:
+        scn_restore = env["folder"] and len(ops) > 1 and rng.random() < 0.3
+        if len(ops) > 1 and not scn_restore and rng.random() < 0.15:
             k = rng.randrange(0, len(ops) - 1)
             ops[k] = ["calibrate_fault_update", ops[k][1], rng.randrange(ops[k][1])]     # the scheduler hook raises once; the caller goes on
-        return {"engine": "calsim", "config": cfg, "env": env, "ops": ops, "sim_seed": rng.randrange(2 ** 31)}
+        scn = {"engine": "calsim", "config": cfg, "env": env, "ops": ops, "sim_seed": rng.randrange(2 ** 31)}
+        if scn_restore:
+            scn["restore_before"] = sorted(rng.sample(range(1, len(ops)), rng.randint(1, len(ops) - 1)))   # the process is replaced before these calls
+        return scn
 
     def run(self, scn):
         res = Result()
